@@ -78,7 +78,15 @@ theorem addsub_mag {M : ErrModel} (L : Laws R M) (isSub : Bool) (a b : Q A U) (s
       refine le_trans hsum ?_
       simp only [ratAbs_eq_abs]
       exact abs_le_abs_of_nonneg hW0 (by linarith)
-    obtain ⟨d, z, hadd, hzv, hze⟩ := L.add_ok _ _ x y' hx hy'v hs3
+    have hsx : M.safe x = true := by
+      apply L.wf.safe_mono _ _ _ hsafe2
+      simp only [ratAbs_eq_abs]
+      exact le_trans (by linarith [abs_nonneg y'] : |x| ≤ W + M.Ea W) (le_abs_self _)
+    have hsy : M.safe y' = true := by
+      apply L.wf.safe_mono _ _ _ hsafe2
+      simp only [ratAbs_eq_abs]
+      exact le_trans (by linarith [abs_nonneg x] : |y'| ≤ W + M.Ea W) (le_abs_self _)
+    obtain ⟨d, z, hadd, hzv, hze⟩ := L.add_ok _ _ x y' hx hy'v hsx hsy hs3
     refine ⟨⟨d, a.unit⟩, z, ?_, rfl, hzv, ?_⟩
     · simp [hrAdd, heq, hadd, bind, Except.bind, pure, Except.pure]
     · have hE2 := L.wf.Ea_mono _ _ hsum
@@ -101,7 +109,15 @@ theorem addsub_mag {M : ErrModel} (L : Laws R M) (isSub : Bool) (a b : Q A U) (s
       refine le_trans hsum ?_
       simp only [ratAbs_eq_abs]
       exact abs_le_abs_of_nonneg hW0 (by linarith)
-    obtain ⟨d, z, hadd, hzv, hze⟩ := L.sub_ok _ _ x y' hx hy'v hs3
+    have hsx : M.safe x = true := by
+      apply L.wf.safe_mono _ _ _ hsafe2
+      simp only [ratAbs_eq_abs]
+      exact le_trans (by linarith [abs_nonneg y'] : |x| ≤ W + M.Ea W) (le_abs_self _)
+    have hsy : M.safe y' = true := by
+      apply L.wf.safe_mono _ _ _ hsafe2
+      simp only [ratAbs_eq_abs]
+      exact le_trans (by linarith [abs_nonneg x] : |y'| ≤ W + M.Ea W) (le_abs_self _)
+    obtain ⟨d, z, hadd, hzv, hze⟩ := L.sub_ok _ _ x y' hx hy'v hsx hsy hs3
     refine ⟨⟨d, a.unit⟩, z, ?_, rfl, hzv, ?_⟩
     · simp [hrSub, heq, hadd, bind, Except.bind, pure, Except.pure]
     · have hE2 := L.wf.Ea_mono _ _ hsum
